@@ -327,7 +327,24 @@ func importsFor(body string) string {
 // helpers are import-free stand-ins for the few library calls the shapes
 // need: a file without imports loads in milliseconds, while any import drags
 // the runtime package's closure through the type checker.
-const helpers = `type simpleErr string
+const helpers = `// function literals in package-level initialisers (go/ssa hangs them off the
+// synthetic package initialiser): they have bodies and must be analysed too
+var pkgHook = func(x int) int {
+	return x*2 + 1
+}
+
+var pkgTable = map[string]func() int{
+	"one": func() int { return 1 },
+	"two": func() int {
+		n := 0
+		for i := 0; i < 2; i++ {
+			n++
+		}
+		return n
+	},
+}
+
+type simpleErr string
 
 func (e simpleErr) Error() string { return string(e) }
 
